@@ -327,9 +327,9 @@ Definition spec_diag_b (h w : nat) (act : nat -> bool) : bool :=
   let L := diag_order h w act in
   cert_diag h w act (fun v => Z.of_nat (rank_in w L v)).
 
-(* ---- the unbounded equivalence that is NOT proved (a discrete planar
-   separation theorem): on an independent pattern the diagonal forest
-   condition says exactly that the inactive cells stay connected *)
+(* ---- the unbounded equivalence (a discrete planar separation theorem,
+   proved in NotAdjPlanarMain.v::diag_equiv): on an independent pattern the
+   diagonal forest condition says exactly that the inactive cells stay connected *)
 Definition diag_equiv_statement : Prop :=
   forall h w act, (2 <= h)%nat -> (2 <= w)%nat -> independent (grid_graph h w) act ->
     (spec_diag h w act <-> connected (grid_graph h w) (inactive act)).
